@@ -175,9 +175,14 @@ def _run_model_for_batch(model_cls: Type[Model], kwargs: dict, collectors: Optio
     Union[None, Dict[str, List[Any]], List[Any]]:
         The data collected by the specified collectors (if any).
     """
-    model = _build_model_from_kwargs(model_cls, kwargs)  # Build Model
-    while model.is_running() and model.systems.timestep < max_timesteps:  # Run Model
-        model.execute()
+    try:
+        model = _build_model_from_kwargs(model_cls, kwargs)  # Build Model
+        while model.is_running() and model.systems.timestep < max_timesteps:  # Run Model
+            model.execute()
+    except StopIteration as e:
+        # A StopIteration coming back from a worker would silently end the iteration over the pool's results (and
+        # the run would be dropped without any error), so it is converted the way PEP 479 does for generators.
+        raise RuntimeError(f"Model {model_cls.__name__}({kwargs}) raised StopIteration") from e
 
     if collectors is None:  # No Data Collection
         return None
